@@ -13,7 +13,7 @@ VERIF = os.path.dirname(os.path.dirname(os.path.abspath(__file__)))
 
 def sh(cmd, cwd=None, timeout=3600):
     r = subprocess.run(cmd, shell=True, cwd=cwd, capture_output=True, text=True, timeout=timeout)
-    return r.returncode, (r.stdout + r.stderr)[-4000:]
+    return r.returncode, (r.stderr[-1500:] + "\n" + r.stdout[-2500:])
 
 
 def main():
@@ -29,7 +29,7 @@ def main():
     if any(not (f.startswith("src/") or f.startswith("include/") or f.startswith("lib/")) for f in rec["files_touched"]):
         print("patch touches files outside src/ include/ lib/:", rec["files_touched"]); return 1
     sh("git apply %s" % os.path.join(d, "patch.diff"), cwd=wt)
-    rc, out = sh("cmake -G Ninja -B _build -S . > /dev/null && cmake --build _build -j16 2>&1 | tail -3 && ctest --test-dir _build -j8 --timeout 900 2>&1 | tail -4", cwd=wt)
+    rc, out = sh("cmake -G Ninja -B _build -S . > /dev/null 2>&1 && cmake --build _build -j16 2>&1 | tail -3 && ctest --test-dir _build -j8 --timeout 900 2>&1 | tail -4", cwd=wt)
     m = re.search(r"(\d+)% tests passed, (\d+) tests failed out of (\d+)", out)
     rec["ctest_with_patch"] = m.group(0) if m else out[-300:]
     if not m or m.group(1) != "100" or m.group(3) != "126":
